@@ -8,6 +8,7 @@
 
 from __future__ import annotations
 
+import builtins
 import copy
 import logging
 import threading
@@ -419,7 +420,9 @@ class RemoteAssertionTraceObserver(ex.RemoteExecutionObserver):
         if not hasattr(typ, "__module__") or not hasattr(typ, "__qualname__"):
             return False
         if typ.__module__ == "builtins":
-            return True
+            # Some builtin types (function, list_iterator, ellipsis, ...) are not
+            # bound to their name in the builtins namespace.
+            return getattr(builtins, typ.__qualname__, None) is typ
         return typ.__module__ == config.configuration.module_name
 
 
